@@ -11,6 +11,7 @@ mod coq;
 mod corpus;
 mod ctier;
 mod dd;
+mod dtier;
 mod famgen;
 mod faults;
 mod obs;
@@ -36,6 +37,9 @@ fn main() {
             }
         }));
         std::process::exit(ctier::main(&args[2..]));
+    }
+    if args.len() >= 2 && args[1] == "derive-tier" {
+        std::process::exit(dtier::main(&args[2..]));
     }
     if args.len() < 5 {
         eprintln!("usage: vharness <prop> <tier> <seed> <outdir> [--shards N] [--replay file]");
